@@ -46,12 +46,15 @@ ASSUMPTIONS = [
 ]
 
 EPS = np.finfo(float).eps
-ALPHAS = (0.0, -0.5, 0.5, 1.0, 2.5)
+ALPHAS = (0.0, -0.5, 0.5, 1.0, 2.5, -0.9, 7, 12.5)
 DELTAS = (0.1, 0.05, 0.5)
 HS = (0.1, 0.05, 0.5, 1.0)
 DS = (9, 1, 5)
 RHOS = (1.1, 1.05, 1.4, 2.0)
 ODD_ONLY = ("TanhSinh", "Simpson", "ExpSinh", "LogExpSinh", "ExpExp", "SingleTanh", "SingleExp", "SingleArcSinhExp")
+HALF_LINE = ("UniformInteger", "GaussLaguerre", "ExpSinh", "LogExpSinh", "ExpExp", "SingleExp", "SingleArcSinhExp")
+# rules whose weights span many orders of magnitude: each weight is held to a relative tolerance of its own
+WIDE = ("ExpSinh", "LogExpSinh", "ExpExp", "SingleTanh", "SingleExp", "SingleArcSinhExp")
 GENERAL_BASES = ("ClenshawCurtis", "GaussChebyshevType2", "GaussLegendre", "FejerFirst")
 
 
@@ -240,6 +243,11 @@ def _structure(res, tag, case, g, n, name):
         res.violation(f"{tag}:nodes-not-ascending", f"{tag} n={n}: nodes are not strictly ascending", case)
         return False
     dom = g.domain
+    base = name.split("(")[0]
+    want_dom = (0, np.inf) if base in HALF_LINE else (-1, 1)
+    if dom is None or tuple(float(v) for v in dom) != tuple(float(v) for v in want_dom):
+        res.violation(f"{tag}:declared-domain", f"{tag} n={n}: declares the domain {dom}, its definition lives on {want_dom}", case)
+        return False
     if dom is None or pts.min() < dom[0] - 1e-12 or pts.max() > dom[1] + 1e-12:
         res.violation(f"{tag}:node-outside-domain", f"{tag} n={n}: nodes outside declared domain {dom}", case)
         return False
@@ -265,6 +273,14 @@ def _compare_def(res, tag, case, g, ref, n, c=1e4):
             res.violation(f"{tag}:weight-differs-from-definition",
                           f"{tag} n={n}: weight {i} = {w[i]!r}, definition gives {fw[i]!r} "
                           f"(max |dw| = {np.max(np.abs(w - fw)):.3e})", dict(case, node=i))
+            return
+        # (weights more than 25 orders of magnitude below the largest are computed from cancelling exponentials and
+        # carry relative errors up to 3e-9 on the unchanged tree -- rounding by the stated standard; they are left to
+        # the absolute test above)
+        if tag.split("(")[0] in WIDE and abs(fw[i]) > 1e-25 * (wscale - 1) and _gt(abs(w[i] - fw[i]), 1e-10 * abs(fw[i])):
+            res.violation(f"{tag}:weight-differs-from-definition",
+                          f"{tag} n={n}: weight {i} = {w[i]!r}, definition gives {fw[i]!r} (relative deviation "
+                          f"{abs(w[i] - fw[i]) / abs(fw[i]):.3e}; the largest weight is {wscale - 1:.3e})", dict(case, node=i))
             return
         res.maximum(f"def_err:{tag.split('(')[0]}", abs(w[i] - fw[i]) / wscale)
 
@@ -355,6 +371,9 @@ def _case(arg):
             res.violation("FejerSecond:weights:series-truncated-by-one",
                           f"FejerSecond n={n}: weights equal the definition with the sine series stopped one term early "
                           f"(max deviation from the true weights {np.max(np.abs(w - fd)):.3e})", case)
+    if ref is not None and fejer2_known:
+        # the nodes are still those of the definition (only the weights carry the recorded deviation)
+        _compare_def(res, tag, case, g, (ref[0], [mp.mpf(float(v)) for v in g.weights]), n)
     if ref is not None and not fejer2_known:
         _compare_def(res, tag, case, g, ref, n)
     # ----- Trefethen maps: g(x_i), g'(x_i) w_i on the base rule
